@@ -21,7 +21,8 @@ ASSUMPTIONS = ['interleavings at the granularity of synchronisation, queue and s
                'the peer answers heartbeat pings immediately unless it is in the "silent" state']
 
 N_EXAMPLES = {'quick': 800, 'thorough': 12000}
-KEYS = [['read', 'm:value'], ['read', 'm:value'], ['read', 'm:_p'], ['change', 'm:target'], ['do', 'm:go'], ['foo', 'bar'], ['read', 'm:value']]
+KEYS = [['read', 'm:value'], ['read', 'm:value'], ['read', 'm:_p'], ['change', 'm:target'], ['do', 'm:go'], ['foo', 'bar'], ['read', 'm:value'],
+        ['describe', '.'], ['describe', None]]     # the peer answers 'describe' at once with 'describing . {...}'
 DESCRIPTION = {'modules': {'m': {'accessibles': {
     'value': {'datainfo': {'type': 'double'}, 'readonly': True, 'description': 'v'},
     'target': {'datainfo': {'type': 'double'}, 'readonly': False, 'description': 't'},
@@ -335,6 +336,16 @@ def check(ctx, case, preempt=None):
         if elapsed > 13.0 + 1.5:
             ctx.finding('caller-blocked-too-long', sub, f'caller {i} {c["key"]}: {elapsed:.1f} s, result {results[i][:3]!r}')
             return
+        if action == 'describe':
+            # answered by the peer immediately (not part of the plan), with the specifier '.'
+            if kind == 'reply' and a != 'describing':
+                ctx.finding('caller-got-foreign-reply', sub, f'caller {i} asked {c["key"]}, got {results[i][:3]!r}')
+                return
+            if kind != 'reply' and a == 'TimeoutError' and not disturbed:
+                ctx.finding(f'timeout-although-peer-answered:describe{"-dot" if ident == "." else ""}', sub,
+                            f'caller {i} {c["key"]}: {b} after {elapsed:.1f} s; the peer sent "describing . {{...}}" at once')
+                return
+            continue
         if kind == 'reply':
             nonce = data[0] if isinstance(data, list) else None
             if action not in REPLY:
